@@ -98,7 +98,7 @@ Proof.
   split.
   - intros off p Hin. apply (kchain_from_fwd_ge _ _ Hc eq_refl _ _ Hin).
   - intros b l3 ->. cbn [kchain_from] in Hc. destruct Hc as [Hc _]. destruct b; cbn [ok_next nxt is_res] in Hc; try exact Hc.
-    destruct Hc as [-> X]. split; [reflexivity|]. now apply X.
+    destruct Hc as [-> X]. split; [reflexivity|exact X].
 Qed.
 
 (** the first event of every key is a subscribe marker or a resume marker; a resume marker is
@@ -126,7 +126,7 @@ Theorem run_complete_gen cfg st0 ops st tr :
      forall l1 a l2, ktrace (o_link o, f, i) tr = l1 ++ a :: l2 ->
        forall x, nxt a <= x < end_of (d_log d) -> covered x l2).
 Proof.
-  intros H Hmo Hq id c o Hc Ho f Hf. pose proof (run_hyps_inv _ _ _ _ _ H) as [_ _ _ HDI].
+  intros H Hmo Hq id c o Hc Ho f Hf. pose proof (run_hyps_inv _ _ _ _ _ H) as [_ _ _ HDI _].
   pose proof (run_key_head _ _ _ _ _ H) as Hhd.
   destruct H as (Hcfg & Hlt & Hi & Hwf & Hr & HB). pose proof (run_d_run _ _ _ _ Hr) as Hr'.
   destruct (complete_quiescent cfg st0 ops st Hcfg (conj Hmo Hlt) Hi Hwf Hr' HB Hq id c Hc)
